@@ -20,7 +20,8 @@ RULE = ("cases from rng(seed, 3, 0, i): well-posed cluster graphs (1-4 clusters 
         "of the spec; non-trivial = at least one free vertex moved by more than 1e-6 and cond(H_reduced) <= 1e10.")
 REQ = ["eval:gn-step-applied", "eval:fixed-vertex-zero-increment", "eval:solver-boundary-H", "eval:solver-boundary-rhs", "class:parallel_edges", "class:edge_high_index_first",
        "class:mixed_dimensions", "class:custom_unary", "class:custom_ternary", "class:custom_numeric_jacobian", "class:fix_first_pose=True", "class:fix_first_pose=False",
-       "class:several_fixed_per_cluster", "class:landmark_offset_rotated", "class:shared_pose_storage", "class:exact_special_values", "class:second_call_after_edits", "eval:second-call-equals-fresh-graph", "class:fixed_flags_as_int", "class:landmark_offset_zero_translation_rotated"]
+       "class:several_fixed_per_cluster", "class:landmark_offset_rotated", "class:shared_pose_storage", "class:exact_special_values", "class:second_call_after_edits", "eval:second-call-equals-fresh-graph", "class:fixed_flags_as_int", "class:landmark_offset_zero_translation_rotated", "eval:K-iterations-equal-K-single-steps", "class:information_scales:per_edge",
+       "class:information_scales:all_tiny"]
 PLAN = {
     "quick": {"cases": 1600, "soft_s": 70, "min_nontrivial": 400, "require": REQ},
     "thorough": {"cases": 60000, "soft_s": 1200, "min_nontrivial": 10000, "require": REQ},
@@ -114,7 +115,8 @@ def one_step_check(ctx, spec, labels, ffp, case, monitor_prefix="", cond_max=1e1
             ht = 200 * R.EPS * max(1.0, float(np.abs(H).max()))
             ok &= ctx.close(monitor_prefix + "solver-boundary-H", Hs, Hexp, ht, {"fix_first_pose": ffp}, {"labels": sorted(labels)}, case)
             rexp = np.where(free, -b, 0.0)
-            bt = 200 * R.EPS * max(1.0, float(np.abs(b).max()))
+            babs = M.LAST_ABS.get("babs")
+            bt = 200 * R.EPS * max(1.0, float(np.abs(b).max()), float(babs.max()) if babs is not None and len(babs) == len(b) else 0.0)
             ok &= ctx.close(monitor_prefix + "solver-boundary-rhs", rhs, rexp, bt, {"fix_first_pose": ffp}, None, case)
         else:
             ctx.check(monitor_prefix + "solver-boundary-H", False, {"why": "shape"}, {"shape": None if Hs is None else Hs.shape, "expected": H.shape}, case)
@@ -165,15 +167,30 @@ def second_call_check(ctx, spec, labels, rng, case):
 def run_case(ctx, i, rng):
     ffp = bool(i % 2)
     big = ctx.tier == "thorough" and rng.random() < 0.3
+    wide = bool(rng.random() < 0.25)
     if ffp and rng.random() < 0.5:
         k = str(rng.choice(R.KINDS))
-        spec, labels = gen.cluster_graph(rng, kinds=[k], size=(2, 12 if big else 6), fix_mode="first", alias=bool(rng.random() < 0.25), special=bool(rng.random() < 0.3))
+        spec, labels = gen.cluster_graph(rng, kinds=[k], size=(2, 12 if big else 6), fix_mode="first", alias=bool(rng.random() < 0.25), special=bool(rng.random() < 0.3), wide_info=wide)
         labels.add("only_first_pose_fixed")
     else:
-        spec, labels = gen.cluster_graph(rng, size=(2, 12 if big else 6), alias=bool(rng.random() < 0.25), special=bool(rng.random() < 0.3))
+        spec, labels = gen.cluster_graph(rng, size=(2, 12 if big else 6), alias=bool(rng.random() < 0.25), special=bool(rng.random() < 0.3), wide_info=wide)
     labels.add("fix_first_pose=%s" % ffp)
     case = {"graph": {k: v for k, v in spec.items() if k != "truth_by_id"}, "fix_first_pose": ffp}
-    res = one_step_check(ctx, spec, labels, ffp, case)
+    res = one_step_check(ctx, spec, labels, ffp, case, cond_max=(1e13 if wide else 1e10))
+    if i % 4 == 2:
+        # every iteration of a multi-iteration call is such a step: one call of K iterations equals K calls of one iteration (each of which the
+        # one-step oracle covers from its own start state)
+        K = int(rng.integers(3, 9))
+        ga, gb = M.build(spec), M.build(spec)
+        try:
+            M.quiet_optimize(ga, max_iter=K, tol=0.0, fix_first_pose=ffp)
+            for _ in range(K):
+                M.quiet_optimize(gb, max_iter=1, tol=0.0, fix_first_pose=ffp)
+            a, b = M.snapshot_poses(ga), M.snapshot_poses(gb)
+            same = all(len(p) == len(q) and all((x == y) or (x != x and y != y) or abs(x - y) <= 1e-12 * max(1.0, abs(x)) for x, y in zip(p, q)) for p, q in zip(a, b))
+            ctx.check("K-iterations-equal-K-single-steps", same, {"fix_first_pose": ffp}, {"K": K}, case)
+        except Exception as ex:
+            ctx.count("multi_iteration_raised:" + type(ex).__name__)
     if i % 4 == 0:
         try:
             second_call_check(ctx, spec, labels, rng, case)
